@@ -77,7 +77,7 @@ int main(void) {
 '''
 
 
-def build(repo_copy, workdir, big_endian=False, cc="gcc", extra=()):
+def build(repo_copy, workdir, big_endian=False, cc="gcc", extra=(), tag=""):
     sig = signatures()
     disp = []
     for n, (ps, rt, w) in sig.items():
@@ -87,8 +87,8 @@ def build(repo_copy, workdir, big_endian=False, cc="gcc", extra=()):
             disp.append(f'    if (!strcmp(name, "{n}")) {{ r.{rt} = {n}(&mem, a[0].u64{args}); printf({fmt}); printmem(&mem); continue; }}\n')
         else:
             disp.append(f'    if (!strcmp(name, "{n}")) {{ {n}(&mem, a[0].u64{args}); printf("void"); printmem(&mem); continue; }}\n')
-    src = os.path.join(workdir, "memops_be.c" if big_endian else "memops.c")
-    exe = os.path.join(workdir, "memops_be" if big_endian else "memops")
+    src = os.path.join(workdir, ("memops_be" if big_endian else "memops") + tag + ".c")
+    exe = os.path.join(workdir, ("memops_be" if big_endian else "memops") + tag)
     open(src, "w").write(SRC.replace("@@DISPATCH@@", "".join(disp)))
     cmd = [cc, "-O1", "-w", "-fno-strict-aliasing", "-DWASM_THREADS_PTHREADS", "-I", os.path.join(repo_copy, "w2c2"), src, "-o", exe, "-lm", "-lpthread"]
     if big_endian:
@@ -98,6 +98,44 @@ def build(repo_copy, workdir, big_endian=False, cc="gcc", extra=()):
     if p.returncode != 0:
         raise RuntimeError("mem harness build failed:\n" + p.stderr[-3000:])
     return exe
+
+
+PRELUDE_OLD_GCC = """/* makes the compiler identify itself as GCC 4.7: w2c2_base.h then selects its portable mask-and-shift byte swaps
+   (the branch for compilers without bswap intrinsics) instead of __builtin_bswap*; the system headers are included first, under the
+   compiler's real identity (their include guards keep them from being read again) */
+#include <stddef.h>
+#include <math.h>
+#include <string.h>
+#include <stdlib.h>
+#include <stdint.h>
+#include <stdbool.h>
+#include <assert.h>
+#include <errno.h>
+#include <endian.h>
+#include <float.h>
+#include <limits.h>
+#include <stdio.h>
+#include <pthread.h>
+#undef __GNUC__
+#undef __GNUC_MINOR__
+#undef __clang__
+#define __GNUC__ 4
+#define __GNUC_MINOR__ 7
+"""
+
+
+def build_be_plain(repo_copy, workdir):
+    """forced big-endian build with the PORTABLE swap macros; raises if the preprocessor did not select them"""
+    pre = os.path.join(workdir, "prelude_gcc47.h")
+    open(pre, "w").write(PRELUDE_OLD_GCC)
+    probe = os.path.join(workdir, "swap_probe.c")
+    open(probe, "w").write('#include "w2c2_base.h"\nPROBE swapU64(v)\n')
+    p = subprocess.run(["gcc", "-E", "-P", "-w", "-include", pre, "-DWASM_ENDIAN=WASM_BIG_ENDIAN", "-I", os.path.join(repo_copy, "w2c2"), probe],
+                       stdout=subprocess.PIPE, stderr=subprocess.PIPE, text=True)
+    line = [l for l in p.stdout.splitlines() if l.startswith("PROBE")]
+    if p.returncode != 0 or not line or "__builtin_bswap" in line[0] or ">>" not in line[0]:
+        raise RuntimeError("portable swap macros not selected by the prelude: " + (line[0] if line else p.stderr[-500:]))
+    return build(repo_copy, workdir, big_endian=True, extra=("-include", pre), tag="_plain")
 
 
 def gen_cases(rng, names, n_random, aligned_only=False, memlen=24):
